@@ -46,7 +46,7 @@ Qed.
 Fixpoint html_only (s : mstmt) : bool :=
   match s with
   | MAuto a body => match a with AETrue | AEHtml => forallb html_only body | _ => false end
-  | MLoop _ body | MWith body | MCapture _ body | MMacro _ body | MCallBlock _ body => forallb html_only body
+  | MLoop _ body | MWith body | MCapture _ body | MMacro _ body | MCallBlock _ body | MBlock _ body => forallb html_only body
   | _ => true
   end.
 
@@ -108,7 +108,7 @@ Proof.
             mexec_list_with (fun mm e st => mexec tpls fuel MHtml mm cal None e st) MHtml empty_env body = Ok (e1, o1, sg1) ->
             clean o1 = true).
   { intros cal body e1 o1 sg1 Hcal Hb E. eapply exec_list_ok; [apply (IH cal None Hcal)|apply empty_env_ok|exact Hb|exact E]. }
-  destruct s as [id|a body|n body|k|k|body|v body|v|nm body|nm|nm cb| |t]; simpl in H.
+  destruct s as [id|a body|n body|k|k|body|v body|v|nm body|nm|nm cb| |t| |nm| |nm body]; simpl in H.
   - inversion H; subst. split; auto. apply clean_marker.
   - cbn [html_only] in Hs. destruct a; try discriminate; cbn [derive] in H; eapply Hblock; eauto.
   - cbn [html_only] in Hs. apply bind_ok in H as (o1 & E & H). inversion H; subst. split; auto.
@@ -137,7 +137,20 @@ Proof.
     eapply (Hinv None); eauto; exact I.
   - destruct (nth_error tpls (Z.to_nat t)) as [[mt body]|] eqn:E; [|discriminate].
     pose proof (forallb_In _ _ _ Htpls (nth_error_In _ _ E)) as Ht. cbn [fst snd] in Ht. destruct mt; try discriminate.
-    apply bind_ok in H as ([[e1 o1] sg1] & E1 & H). inversion H; subst. split; auto. eapply (Hinv None); eauto; exact I.
+    destruct (mexec_list_with _ MHtml empty_env body) as [[[e1 o1] sg1]|c| |] eqn:E1; try discriminate.
+    inversion H; subst. split; auto. eapply (Hinv None); eauto; exact I.
+  - discriminate.
+  - destruct (assoc nm (e_macros env)) as [body|] eqn:E; [|inversion H; subst; split; [exact He|reflexivity]].
+    destruct He as [Hv Hm]. pose proof (forallb_In _ _ _ Hm (assoc_in _ _ _ E)) as Hb. cbn in Hb.
+    destruct (mexec_list_with _ MHtml empty_env body) as [[[e1 o1] sg1]|c| |] eqn:E1; try discriminate; inversion H; subst; (split; [split; auto|]).
+    + eapply (Hinv None); eauto; exact I.
+    + reflexivity.
+  - destruct caller as [cb|]; [|inversion H; subst; split; [exact He|reflexivity]].
+    destruct (mexec_list_with _ MHtml empty_env cb) as [[[e1 o1] sg1]|c| |] eqn:E1; try discriminate; inversion H; subst; (split; [exact He|]).
+    + eapply (Hinv None); eauto; exact I.
+    + reflexivity.
+  - cbn [html_only] in Hs. apply bind_ok in H as ([[e1 o1] sg1] & E1 & H). inversion H; subst. split; auto.
+    eapply (Hinv None); eauto; exact I.
 Qed.
 
 End HtmlOnly.
@@ -151,4 +164,23 @@ Proof.
   { pose proof Htpls as H0. cbn [forallb fst snd] in H0. apply andb_true_iff in H0 as [H0 _]. destruct m0; try discriminate. auto. }
   destruct Ht as [-> Hb]. apply bind_ok in H as ([[e1 o1] sg1] & E1 & H). inversion H; subst.
   unfold mexec_list in E1. eapply exec_list_ok; [apply (exec_ok _ Htpls fuel None None I)|apply empty_env_ok|exact Hb|exact E1].
+Qed.
+
+(* the error outcome: a macro call that fails and is swallowed by the host leaves nothing behind - the
+   fallback is printed and what follows runs under the mode m it would have run under anyway *)
+Lemma attempt_failure_keeps_mode_proof tpls fuel initial m caller li env nm body c rest :
+  assoc nm (e_macros env) = Some body ->
+  mexec_list_with (fun mm e st => mexec tpls fuel m mm None None e st) m empty_env body = Err c ->
+  mexec_list_with (fun mm e st => mexec tpls (S fuel) initial mm caller li e st) m env (MAttempt nm :: rest) =
+  bind (mexec_list_with (fun mm e st => mexec tpls (S fuel) initial mm caller li e st) m env rest)
+       (fun '(env2, o2, sg2) => Ok (env2, render_str m false fallback ++ o2, sg2)).
+Proof.
+  intros Ha Hf.
+  change (mexec_list_with (fun mm e st => mexec tpls (S fuel) initial mm caller li e st) m env (MAttempt nm :: rest)) with
+    (bind (mexec tpls (S fuel) initial m caller li env (MAttempt nm)) (fun '(env1, o1, sg) =>
+       match sg with
+       | SNormal => bind (mexec_list_with (fun mm e st => mexec tpls (S fuel) initial mm caller li e st) m env1 rest) (fun '(env2, o2, sg2) => Ok (env2, o1 ++ o2, sg2))
+       | _ => Ok (env1, o1, sg)
+       end)).
+  simpl mexec. rewrite Ha, Hf. reflexivity.
 Qed.
